@@ -232,7 +232,7 @@ fn main() {
     // ---------------- part A ----------------
     for n in 0..=MAX_N + if thorough { 4 } else { 0 } {
         for ty in ["Lut", "LutN"] {
-            let reps = if thorough { 3 } else { 1 };
+            let reps = if thorough { 8 } else { 1 };
             for rep in 0..reps {
                 let a = gen::gen(if rep == 0 { Fam::Const } else { Fam::Random }, n, &mut rng);
                 let a = if rep == 0 { Model::constant(n, true).to_blocks() } else { a };
@@ -296,7 +296,7 @@ fn main() {
     // ---------------- part B ----------------
     for n in 0..=MAX_N + 2 {
         for ty in ["Lut", "LutN"] {
-            let reps = if thorough { 40 } else { 6 };
+            let reps = if thorough { 300 } else { 6 };
             for rep in 0..reps {
                 for op in OPS {
                     if !valid_for(op, n) || (op == "npn_canon" && n >= 7 && rep > 0) || (op == "p_canon" && n >= 8 && rep > 1) {
